@@ -5,6 +5,7 @@ import json
 import multiprocessing as mp
 import os
 import re
+import shutil
 import sys
 import time
 import traceback
@@ -182,6 +183,7 @@ class Report:
         for fid, (fd, n) in known.items():
             out_lines.append(f"KNOWN-FINDING: property={self.pid} {fid}: {fd['text']} ({n} scenario(s) this run)")
         rdir = os.path.join(OUT, "replays", self.pid)
+        shutil.rmtree(rdir, ignore_errors=True)
         if fresh:
             os.makedirs(rdir, exist_ok=True)
         seen = {}
